@@ -136,3 +136,32 @@ func H17b_ExtendEventLog() {
 		vp.Assert("error-iff-tsm-fails", (err != nil) == t.fail)
 	}
 }
+
+// H17c: histories. Two requests in a row through one TSM: whatever the first one was (accepted or
+// rejected at any stage), the second is handled as if it came first: an accepted event-log request
+// extends exactly SHA-384 of ITS log, an accepted digest request exactly its digest.
+func H17c_TwoRequests() {
+	t := newTSM()
+	// first request: an event log or a digest, any index
+	log1 := vp.Bytes("eventlog1", vp.IntRange("log1_len", 0, 64))
+	vp.GhostSet(log1, "content-id", vp.U64("eventlog1_identity"))
+	idx1 := vp.Int("index1")
+	if vp.Choose("firstKind", 2) == 0 {
+		_ = ExtendEventLogClient(t, idx1, crypto.Hash(vp.U64("hashAlgo1")), log1)
+	} else {
+		_ = ExtendDigestClient(t, idx1, vp.Bytes("digest1", vp.IntRange("digest1_len", 0, 64)))
+	}
+	n1 := t.nExtend
+	// second request: a valid event-log request
+	log2 := vp.Bytes("eventlog2", vp.IntRange("log2_len", 1, 64))
+	id2 := vp.U64("eventlog2_identity")
+	vp.GhostSet(log2, "content-id", id2)
+	idx2 := vp.IntRange("index2", 0, 3)
+	err := ExtendEventLogClient(t, idx2, crypto.SHA384, log2)
+	vp.Reach("second-accepted", err == nil)
+	vp.Assert("second-request-extends-exactly-once", t.nExtend == n1+1)
+	if t.nExtend == n1+1 {
+		vp.Assert("second-extends-the-requested-register", t.extIndex == idx2)
+		vp.Assert("second-extends-with-sha384-of-its-own-log", vp.BytesEq(t.extDig, vp.UFBytes("SHA384", 48, id2)))
+	}
+}
